@@ -102,13 +102,13 @@ def run_mutants(unit, tier='quick', sel=None):
             continue
         for mi, mu in enumerate(t.get('mutants', [])):
             sl = mu[2] if len(mu) > 2 else t['slices'][0]
-            jobs.append((t, mi, sl, mu[0], mu[1]))
+            jobs.append((t, mi, sl, mu[0], mu[1], mu[3] if len(mu) > 3 else 0))
 
     def one(job):
-        t, mi, sl, old, new = job
+        t, mi, sl, old, new, nth = job
         scratch = mk_scratch()
         try:
-            recs, results, nf = run_unit(unit, scratch, tier, lambda x: x['id'] == t['id'], (sl, old, new))
+            recs, results, nf = run_unit(unit, scratch, tier, lambda x: x['id'] == t['id'], (sl, old, new, nth))
             ok, fails, und, can_bad = summarize(results[0])
             return {'task': t['id'], 'slice': sl, 'old': old, 'new': new, 'killed': bool(fails),
                     'by': [o['name'] for o in fails][:4], 'undecided': len(und)}
